@@ -63,6 +63,8 @@ class Interp:
             return con.call(self, args, kwargs)
         if qualname not in eng.funcs:
             raise Undecided(f"no source for {qualname}")
+        if con is not None:
+            con.check_inline_pre(self, args, kwargs)
         if con is None:
             eng.inlined.add(qualname)
         return self.run_body(qualname, args, kwargs)
